@@ -569,9 +569,15 @@ func (fr *Frame) evalBin(e *CExpr, env *Env, hint *Sort) *GVal {
 			return tv(App(f[1], SBool, a, b))
 		}
 	case s == SF64:
-		m := map[string]string{"<": "f64.lt", "<=": "f64.leq", ">": "f64.gt", ">=": "f64.geq"}
-		if f, ok := m[op]; ok {
-			return tv(App(f, SBool, a, b))
+		switch op {
+		case "<":
+			return tv(App("f64.lt", SBool, a, b))
+		case "<=":
+			return tv(App("f64.leq", SBool, a, b))
+		case ">":
+			return tv(App("f64.lt", SBool, b, a))
+		case ">=":
+			return tv(App("f64.leq", SBool, b, a))
 		}
 		if op == "/" {
 			return tv(App("f64.div", SF64, a, b))
